@@ -108,3 +108,163 @@ Theorem history_inv_gas g cfg e ops w : Inv (w_o w) -> Inv (w_o (final_world_gas
 Proof.
   intros I. destruct (gas_history_simulated g cfg e ops w) as [ops' ->]. apply history_inv. exact I.
 Qed.
+
+(* ---------- C03 on any chain ---------- *)
+From Orbiter Require Import Proofs.Corollaries.
+
+(* success only when every external call succeeded *)
+Theorem success_all_ok_hooks g cfg e w p tape :
+  rr_out (recv_gas g cfg e w p tape 0) = OAckOk ->
+  Forall (fun cv => snd cv = true) (rr_trace (recv_gas g cfg e w p tape 0)).
+Proof.
+  intros H. destruct (pkt_gas_free g p) eqn:Hg.
+  - rewrite (recv_gas_same g cfg e w p tape 0 Hg) in *. exact (success_all_ok cfg e w p tape H).
+  - destruct (recv_gas_charged g cfg e w p tape 0 H Hg) as (_ & _ & _ & _ & Hok & Htr & _).
+    rewrite Htr. exact (success_all_ok cfg e w p tape Hok).
+Qed.
+
+(* an error acknowledgement leaves the world as it was, and no movement is kept *)
+Theorem recv_gas_err_unchanged g cfg e w p tape lie l :
+  rr_out (recv_gas g cfg e w p tape lie) = OAckErr l ->
+  rr_world (recv_gas g cfg e w p tape lie) = w /\ rr_moves (recv_gas g cfg e w p tape lie) = [].
+Proof.
+  unfold recv_gas, recv_with, recv_generic.
+  repeat match goal with
+  | |- context [if ?b then _ else _] => destruct b; cbn [result_of rr_out rr_world rr_moves]; try (intros; split; reflexivity); try discriminate
+  end.
+  assert (Hdel : forall s, rr_out (delegate cfg e w p s) = OAckErr l -> rr_world (delegate cfg e w p s) = w /\ rr_moves (delegate cfg e w p s) = []).
+  { intros s. unfold delegate. destruct (ext CWrapped s) as [v s1]. destruct v; cbn; discriminate. }
+  destruct (pk_data p) as [|denom amount sender receiver memo]; [apply Hdel|].
+  destruct (negb (is_orbiter_receiver _ _ _ _)); [apply Hdel|].
+  destruct (parse_orbiter_packet _ _ _ _ _ _) as [[t pl]| |]; cbn; try (intros; split; reflexivity); try discriminate.
+  destruct (p_fwd pl) as [f|]; cbn; try (intros; split; reflexivity).
+  destruct (_ <? _); cbn; try (intros; split; reflexivity).
+  destruct (recv_body _ _ _ _ _ _ _ _ _ _ _) as [t' s1|l1 s1|y]; cbn; try (intros; split; reflexivity); try discriminate.
+  destruct (update_stats_swallow _ _ _ _); cbn; try (intros; split; reflexivity); try discriminate.
+  destruct (ext _ s1) as [v s2]. destruct v; cbn; try (intros; split; reflexivity); discriminate.
+Qed.
+
+(* ---------- C05 on any chain: a successful transfer makes exactly the external calls, with exactly the
+   requests, that it makes on the chain without charging hooks ---------- *)
+Theorem success_trace_hooks g cfg e w p tape :
+  rr_out (recv_gas g cfg e w p tape 0) = OAckOk ->
+  rr_out (recv cfg e w p tape) = OAckOk /\ rr_trace (recv_gas g cfg e w p tape 0) = rr_trace (recv cfg e w p tape).
+Proof.
+  intros H. destruct (pkt_gas_free g p) eqn:Hg.
+  - rewrite (recv_gas_same g cfg e w p tape 0 Hg) in *. split; [exact H|reflexivity].
+  - destruct (recv_gas_charged g cfg e w p tape 0 H Hg) as (_ & _ & _ & _ & Hok & Htr & _). split; [exact Hok|exact Htr].
+Qed.
+
+(* ... and records exactly the same statistics and leaves exactly the same module state *)
+Theorem success_state_hooks g cfg e w p tape :
+  rr_out (recv_gas g cfg e w p tape 0) = OAckOk ->
+  rr_stat (recv_gas g cfg e w p tape 0) = rr_stat (recv cfg e w p tape) /\
+  w_o (rr_world (recv_gas g cfg e w p tape 0)) = w_o (rr_world (recv cfg e w p tape)).
+Proof.
+  intros H. destruct (pkt_gas_free g p) eqn:Hg.
+  - rewrite (recv_gas_same g cfg e w p tape 0 Hg) in *. split; reflexivity.
+  - destruct (recv_gas_charged g cfg e w p tape 0 H Hg) as (_ & _ & _ & _ & _ & _ & _ & Ho & _ & Hst & _). split; [exact Hst|exact Ho].
+Qed.
+
+(* ---------- C12 on any chain: the statistics are the fold of the successful transfers ---------- *)
+Lemma recv_gas_no_record g cfg e w p tape lie :
+  rr_out (recv_gas g cfg e w p tape lie) <> OAckOk ->
+  w_o (rr_world (recv_gas g cfg e w p tape lie)) = w_o w /\ rr_stat (recv_gas g cfg e w p tape lie) = None.
+Proof.
+  unfold recv_gas, recv_with, recv_generic.
+  repeat match goal with
+  | |- context [if ?c then _ else _] => destruct c; cbn [result_of rr_out rr_world rr_stat w_o]; try (intros; split; reflexivity)
+  end.
+  assert (Hdel : forall s, w_o (rr_world (delegate cfg e w p s)) = w_o w /\ rr_stat (delegate cfg e w p s) = None).
+  { intros s. unfold delegate. destruct (ext CWrapped s) as [v s1]. destruct v; cbn; split; reflexivity. }
+  destruct (pk_data p) as [|denom amount sender receiver memo]; [intros _; apply Hdel|].
+  destruct (negb (is_orbiter_receiver _ _ _ _)); [intros _; apply Hdel|].
+  destruct (parse_orbiter_packet _ _ _ _ _ _) as [[t pl]| |]; cbn; try (intros; split; reflexivity).
+  destruct (p_fwd pl) as [f|]; cbn; try (intros; split; reflexivity).
+  destruct (_ <? _); cbn; try (intros; split; reflexivity).
+  destruct (recv_body _ _ _ _ _ _ _ _ _ _ _) as [t' s1|l1 s1|y]; cbn; try (intros; split; reflexivity).
+  destruct (update_stats_swallow _ _ _ _); cbn; try (intros; split; reflexivity).
+  destruct (ext _ s1) as [v s2]. destruct v; cbn; try (intros; split; reflexivity). intros H. congruence.
+Qed.
+
+Fixpoint fits_along_gas (g : gas_fn) (cfg : config) (e : env) (w : world) (ops : list op) : Prop :=
+  match ops with
+  | [] => True
+  | o :: r => (match out_stat (snd (step_gas g cfg e w o)) with Some st => fits_stat (w_o w) st | None => True end) /\
+              fits_along_gas g cfg e (fst (step_gas g cfg e w o)) r
+  end.
+
+Lemma step_gas_stats g cfg e w o :
+  match out_stat (snd (step_gas g cfg e w o)) with
+  | Some st => fits_stat (w_o w) st -> recorded (w_o w) (w_o (fst (step_gas g cfg e w o))) st
+  | None => amounts (w_o (fst (step_gas g cfg e w o))) = amounts (w_o w) /\ counts (w_o (fst (step_gas g cfg e w o))) = counts (w_o w)
+  end.
+Proof.
+  destruct o as [p tape lie|signer m tape|to d a|sf st sd sa|mv|q| | | |p2 tape2 lie2 k2];
+    [|exact (step_stats cfg e w (OMsg signer m tape))|exact (step_stats cfg e w (ODeposit to d a))
+     |exact (step_stats cfg e w (OSend sf st sd sa))|exact (step_stats cfg e w (OMove mv))|exact (step_stats cfg e w (OQuery q))
+     |exact (step_stats cfg e w OBlockedOutside)|exact (step_stats cfg e w OCallback)|exact (step_stats cfg e w OAppPanics)|].
+  - cbn [step_gas fst snd out_stat].
+    destruct (outcome_eq_ok (rr_out (recv_gas g cfg e w p tape lie))) as [E|E].
+    + destruct (pkt_gas_free g p) eqn:Hg.
+      * rewrite (recv_gas_same g cfg e w p tape lie Hg) in *.
+        destruct (recv_records_lie _ _ _ _ _ _ E) as (r & Hr & _ & _ & _ & _ & _ & _ & Hrec). rewrite Hr. exact Hrec.
+      * destruct (recv_gas_charged g cfg e w p tape lie E Hg) as (_ & _ & _ & _ & Hok & _ & _ & Ho & _ & Hst & _).
+        destruct (recv_records_lie _ _ _ _ _ _ Hok) as (r & Hr & _ & _ & _ & _ & _ & _ & Hrec).
+        rewrite Hst, Hr, Ho. exact Hrec.
+    + destruct (recv_gas_no_record _ _ _ _ _ _ _ E) as [Ho Hs]. rewrite Hs, Ho. split; reflexivity.
+  - cbn [step_gas fst snd out_stat]. split; reflexivity.
+Qed.
+
+Lemma run_ops_gas_cons_full g cfg e w o r :
+  run_ops_gas g cfg e w (o :: r) =
+    (fst (run_ops_gas g cfg e (fst (step_gas g cfg e w o)) r), snd (step_gas g cfg e w o) :: snd (run_ops_gas g cfg e (fst (step_gas g cfg e w o)) r)).
+Proof. cbn [run_ops_gas]. destruct (step_gas g cfg e w o) as [w1 x]. cbn [fst snd]. destruct (run_ops_gas g cfg e w1 r) as [w2 xs]. reflexivity. Qed.
+
+Theorem stats_fold_gas g cfg e : forall ops w,
+  fits_along_gas g cfg e w ops ->
+  (forall k, stat_get (w_o (fst (run_ops_gas g cfg e w ops))) k =
+             (fst (stat_get (w_o w) k) + sum_in (snd (run_ops_gas g cfg e w ops)) k,
+              snd (stat_get (w_o w) k) + sum_out (snd (run_ops_gas g cfg e w ops)) k)) /\
+  (forall k, count_get (w_o (fst (run_ops_gas g cfg e w ops))) k = count_get (w_o w) k + sum_count (snd (run_ops_gas g cfg e w ops)) k).
+Proof.
+  induction ops as [|o r IH]; intros w Hfit.
+  - cbn. split; intros k; [destruct (stat_get (w_o w) k); cbn; f_equal; lia|lia].
+  - destruct Hfit as [Hf1 Hf2]. rewrite run_ops_gas_cons_full. cbn [fst snd sum_in sum_out sum_count].
+    destruct (IH _ Hf2) as [IHa IHc]. pose proof (step_gas_stats g cfg e w o) as Hs.
+    destruct (out_stat (snd (step_gas g cfg e w o))) as [st|].
+    + destruct (Hs Hf1) as (Ha & Hc & _). split; intros k.
+      * rewrite IHa, Ha. unfold rec_amount. destruct (keqb cmp_ak k (akey_of st (sr_sdenom st))); cbn [fst snd]; f_equal; lia.
+      * rewrite IHc, Hc. unfold rec_count. destruct (keqb cmp_ck k (ckey_of st)); lia.
+    + destruct Hs as [Ha Hc]. split; intros k.
+      * rewrite IHa. unfold stat_get. rewrite Ha. f_equal; lia.
+      * rewrite IHc. unfold count_get. rewrite Hc. lia.
+Qed.
+
+(* ---------- C08 / C09 on any chain: packets never change the pause state or the limit ---------- *)
+From Orbiter Require Import Proofs.HistoryProofs.
+Theorem recv_gas_controls g cfg e w p tape lie :
+  controls (w_o (rr_world (recv_gas g cfg e w p tape lie))) = controls (w_o w).
+Proof.
+  destruct (recv_gas_world g cfg e w p tape lie) as [H|[[m H]|H]]; rewrite H; cbn [w_o];
+    [apply recv_controls|apply recv_controls|reflexivity].
+Qed.
+
+(* ---------- C18 on any chain: the limit in force is the value most recently set by the authority ---------- *)
+Lemma step_gas_limit g cfg e w o :
+  pass_limit (w_o (fst (step_gas g cfg e w o))) = limit_after (cfg_authority cfg) (pass_limit (w_o w)) o.
+Proof.
+  destruct o as [p tape lie|signer m tape|to d a|sf st sd sa|mv|q| | | |p2 tape2 lie2 k2];
+    [|exact (step_limit cfg e w (OMsg signer m tape))|exact (step_limit cfg e w (ODeposit to d a))
+     |exact (step_limit cfg e w (OSend sf st sd sa))|exact (step_limit cfg e w (OMove mv))|exact (step_limit cfg e w (OQuery q))
+     |exact (step_limit cfg e w OBlockedOutside)|exact (step_limit cfg e w OCallback)|exact (step_limit cfg e w OAppPanics)|].
+  - cbn [step_gas fst limit_after]. pose proof (recv_gas_controls g cfg e w p tape lie) as H. unfold controls in H.
+    inversion H as [[H1 H2 H3 Hm]]. unfold pass_limit. rewrite Hm. reflexivity.
+  - reflexivity.
+Qed.
+Theorem limit_in_force_gas g cfg e : forall ops w,
+  pass_limit (w_o (final_world_gas g cfg e w ops)) = fold_left (limit_after (cfg_authority cfg)) ops (pass_limit (w_o w)).
+Proof.
+  induction ops as [|o r IH]; intros w; [reflexivity|].
+  rewrite run_ops_gas_cons. cbn [fold_left]. rewrite <- (step_gas_limit g cfg e w o). apply IH.
+Qed.
